@@ -59,6 +59,15 @@ def evaluate(case, out):
                         a.assorter.set_tally_pool_means(cvr_list=cvrs, use_style=us)
                     else:  # the labels of the pooled batches given explicitly, as the ONEAudit notebook does
                         a.assorter.set_tally_pool_means(cvr_list=cvrs, tally_pools=CVR.pool_contests(cvrs), use_style=us)
+                    if len(cvrs) % 5 == 2 and any(c.pool for c in cvrs):
+                        # a further call that names only the batch of the first pooled card is refused at the first pooled
+                        # card of another batch; the auditor carries on with the means already set
+                        try:
+                            a.assorter.set_tally_pool_means(cvr_list=cvrs, tally_pools=[next(c.tally_pool for c in cvrs if c.pool)], use_style=us)
+                            # accepted (no other batch lists the contest): the complete call again
+                            a.assorter.set_tally_pool_means(cvr_list=cvrs, use_style=us)
+                        except KeyError:
+                            out.cls("after-a-refused-pool-means-call")
         Assertion.set_all_margins_from_cvrs(audit, contests, cvrs)
     except Exception as e:  # noqa
         out.lib_exception("setup", e)
